@@ -175,7 +175,7 @@ Theorem C16_alias_before_fix : fixed_F6 = false ->
 Proof. exact alias_before_fix. Qed.
 Print Assumptions C16_alias_before_fix.
 
-(* the loud shape classes (proposed repairs F5, F7): a coupling template on a one-row / one-column matrix, a delayed
+(* the loud shape classes (repaired by D92, D93): a coupling template on a one-row / one-column matrix, a delayed
    1 x 1 matrix — the population circuit raises while the switch is off *)
 Theorem C16_coupling_shape_before_fix : fixed_F5 = false ->
   wf_net N_coupling_shape = true /\ g_coupling_shape N_coupling_shape = false /\
